@@ -12,6 +12,9 @@ describe the run-time environment `env`.
 -/
 import NeoModel.Proofs.CompileAsm
 import NeoModel.Proofs.CompileFault
+import NeoModel.Proofs.CompileLayout
+import NeoModel.Proofs.CompileOverflow
+import NeoModel.Proofs.CompileOperands
 namespace NeoModel.C14
 open NeoModel.MiniVm NeoModel.MiniVm.Asm NeoModel.MiniGo NeoModel.Compile NeoModel.CompileProofs
 
@@ -85,12 +88,12 @@ without `var x T = e` (see `varDecl_shadow_witness`); (2) against the assembly m
     new environment; one that returns reaches a RET with exactly the returned value pushed. -/
 theorem compile_stmt_correct_partial (P : Prog) (cx : Ctx) (fuel : Nat)
     (s : Stmt) (lp : LoopCtx) (st : St) (env : Env) (C : Code) (σ : State) (out : SOut)
-    (hs : Simple s) (hex : exec fuel P env s = .ok out)
+    (hz : totalSz lp = 0) (hs : Simple s) (hex : exec fuel P env s = .ok out)
     (hp : Placed C σ.pc (compS cx lp s st).1) (hn : (labelsOf C).Nodup)
     (hrel : VarsRel cx st.scopes env σ.locals σ.args) (hwf : Wf st)
     (hcnt : (compS cx lp s st).2.cnt ≤ σ.locals.length) :
     StmtPost cx C σ (compS cx lp s st).1.length (compS cx lp s st).2 out :=
-  stmtOK P cx fuel s lp st env C σ out hs hex hp hn hrel hwf hcnt
+  stmtOK P cx fuel s lp hz st env C σ out hs hex hp hn hrel hwf hcnt
 
 /-- compile_correct, function level (`_partial`): a function with a call-free, loop-free body, entered at its
     label with the arguments on the stack (first argument on top), halts with the value the Go semantics returns
@@ -125,51 +128,58 @@ end example_func
 
 /-! ## Stage 4: loops, break/continue, calls and recursion, label uniqueness
 
-`Allowed il s`: every MiniGo statement except `var x T = e` (whose compiled scoping differs from Go's, see
-`varDecl_shadow_witness`); `break`/`continue` only inside a loop body (`il`), a `for` post statement that declares
+`Allowed il s`: every MiniGo statement; `var x T = e` only when `x` does not occur in `e` (otherwise the compiled
+scoping differs from Go's, see `varDecl_as_define` / `varDecl_shadow_witness`); `break`/`continue` only inside a loop body (`il`), a `for` post statement that declares
 nothing, call statements that are calls, `op=` with an arithmetic operator.  MiniGo has no labeled
 break/continue, so those stay outside.  The invocation-stack bound: the VM FAULTs beyond 1024 nested contexts, Go
 does not; the theorems are for evaluations whose fuel (an upper bound of the call depth) fits.  -/
 
 /-- (4) label marks are unique in the compiler's own output, and every function's code sits in it: the hypotheses of
     the simulation theorems hold for `compProg P`. -/
-theorem compile_labels_unique (P : Prog) : (labelsOf (compProg P)).Nodup ∧ ProgCode (compProg P) P :=
-  ⟨(progCode_compProg P).nodup, progCode_compProg P⟩
+theorem compile_labels_unique (P : Prog) (hw : ∀ d ∈ P, WfS false d.body) :
+    (labelsOf (compProg P)).Nodup ∧ ProgCode (compProg P) P :=
+  ⟨(progCode_compProg P hw).nodup, progCode_compProg P hw⟩
 
-/-- (1) compile_stmt_correct with loops and break/continue (and calls): forward simulation for every allowed
-    statement of a function of `P`, inside the compiled program.  Normal completion: the code runs to its end, stack
-    and invocation stack unchanged, the slots describe the new environment.  `return`: a RET is reached with the
-    value pushed.  `break`/`continue`: the enclosing loop's end / post mark is reached with the stack unchanged
-    and the slots describing the frames outside the `d` scopes that are left. -/
-theorem compile_stmt_correct_partial' (P : Prog) (hall : ∀ d ∈ P, Allowed false d.body) (cx : Ctx)
+/-- (1) compile_stmt_correct with loops, `switch`, break/continue (plain and labeled) and calls: forward simulation
+    for every allowed statement of a function of `P`, inside the compiled program.  `lp` = the enclosing `for` /
+    `switch` statements as the compiler tracks them (labelList), `ls` = their (label, is-a-for) signatures as `Allowed`
+    sees them; `Inv` ties the two together (and says: no Go label is waiting, the stack holds the tags of the
+    enclosing `switch` statements); `Deep`: every enclosing statement's scope is further out than the current one.
+    Normal completion: the code runs to its end, stack and invocation stack unchanged, the slots describe the new
+    environment.  `return`: the tags of all enclosing `switch` statements have been dropped, a RET is reached with
+    the value pushed.  `break`/`continue` (`.brk l`/`.cont l`): the end / post mark of the statement it refers to
+    (`findBrk`/`findCont`) is reached with the tags of the `switch` statements it leaves dropped (`SameD dr`) and the
+    slots describing the frames of that statement's scope depth. -/
+theorem compile_stmt_correct_partial' (P : Prog) (hall : ∀ d ∈ P, Allowed [] d.body) (cx : Ctx)
     (htab : cx.funcs = funcTable P) (fuel : Nat)
-    (s : Stmt) (lp : LoopCtx) (d : Nat) (il : Bool) (st : St) (env : Env) (σ : State) (out : SOut)
-    (hal : Allowed il s) (hil : il = true → ∃ b c, lp = some (b, c)) (hd : 1 ≤ d ∨ ∃ b, s = .block b)
+    (s : Stmt) (lp : LoopCtx) (ls : Sigs) (st : St) (env : Env) (σ : State) (out : SOut)
+    (hal : Allowed ls s) (hinv : Inv lp ls st σ)
+    (hd : Deep lp st.scopes.length ∨ (∃ b, s = .block b) ∧ Deepish lp st.scopes.length)
     (hex : exec fuel P env s = .ok out)
     (hp : Placed (compProg P) σ.pc (compS cx lp s st).1)
     (hrel : VarsRel cx st.scopes env σ.locals σ.args) (hwf : Wf st)
     (hcnt : (compS cx lp s st).2.cnt ≤ σ.locals.length) (hdep : σ.frames.length + fuel < 1024) :
-    StmtPostF cx (compProg P) σ (σ.pc + (compS cx lp s st).1.length) (compS cx lp s st).2.scopes st.scopes lp d out :=
-  (allOK (progCode_compProg P) hall fuel).stmt cx htab s lp d il st env σ out hal hil hd hex hp hrel hwf hcnt hdep
+    StmtPostF cx (compProg P) σ (σ.pc + (compS cx lp s st).1.length) (compS cx lp s st).2.scopes st.scopes lp out :=
+  (allOK (progCode_of_allowed P hall) hall fuel).stmt cx htab s lp ls st env σ out hal hinv hd hex hp hrel hwf hcnt hdep
 
 /-- (2) calls: a CALL of a function of the program whose Go evaluation returns `v` (recursion included) comes back
     to the instruction after the CALL with `v` in place of the arguments and the caller's frame — slots,
     arguments, rest of the stack, invocation stack — exactly as before (stack/slot discipline across CALL/RET). -/
-theorem compile_call_correct_partial (P : Prog) (hall : ∀ d ∈ P, Allowed false d.body) (fuel : Nat)
+theorem compile_call_correct_partial (P : Prog) (hall : ∀ d ∈ P, Allowed [] d.body) (fuel : Nat)
     (f : String) (vs : List Val) (v : Val) (σ : State) (rest : List Val)
     (hc : callF fuel P f vs = .ok v) (hs : σ.stack = vs ++ rest)
     (hf : (compProg P)[σ.pc]? = some (.ins (.call (fnLabel P f)))) (hdep : σ.frames.length + fuel < 1024) :
     Reach (compProg P) σ { σ with pc := σ.pc + 1, stack := v :: rest } :=
-  (allOK (progCode_compProg P) hall fuel).call f vs v σ rest hc hs hf hdep
+  (allOK (progCode_of_allowed P hall) hall fuel).call f vs v σ rest hc hs hf hdep
 
 /-- (2) compile_func_correct without the call-free / loop-free restriction, program level: invoking function `f`
     of the compiled program with the arguments on the stack halts with the value the Go semantics returns. -/
-theorem compile_prog_correct_partial (P : Prog) (hall : ∀ d ∈ P, Allowed false d.body)
+theorem compile_prog_correct_partial (P : Prog) (hall : ∀ d ∈ P, Allowed [] d.body)
     (f : String) (vs rest : List Val) (v : Val) (fuel : Nat)
     (hrun : callF fuel P f vs = .ok v) (hdep : fuel < 1024) :
     ∃ pc0 n, findLabel (compProg P) (fnLabel P f) = some pc0 ∧
       Asm.run (compProg P) n { pc := pc0, stack := vs ++ rest, locals := [], args := [], frames := [] } = .halt (v :: rest) :=
-  entry_halt (progCode_compProg P) hall hrun hdep
+  entry_halt (progCode_of_allowed P hall) hall hrun hdep
 
 /-! non-vacuity: recursion, a loop with continue and break, a call inside the loop
       func fact(n int) int { if n <= 1 { return 1 }; return n * fact(n-1) }
@@ -189,7 +199,7 @@ def exSum : FuncDecl :=
       (.seq (.ret (some (.var "s"))) .skip)) }
 def exP : Prog := [exFact, exSum]
 
-theorem exP_allowed : ∀ d ∈ exP, Allowed false d.body := by
+theorem exP_allowed : ∀ d ∈ exP, Allowed [] d.body := by
   intro d hd
   simp only [exP, List.mem_cons, List.mem_nil_iff, or_false] at hd
   rcases hd with rfl | rfl <;> simp [exFact, exSum, Allowed, NoDecl, Strict]
@@ -198,7 +208,7 @@ example : callF 60 exP "sum" [.int 10] = .ok (.int 148) := by rfl
 example : ∃ pc0 n, findLabel (compProg exP) (fnLabel exP "sum") = some pc0 ∧
     Asm.run (compProg exP) n { pc := pc0, stack := [.int 10], locals := [], args := [], frames := [] } = .halt [.int 148] := by
   simpa using compile_prog_correct_partial exP exP_allowed "sum" [.int 10] [] (.int 148) 60 (by rfl) (by decide)
-example : (labelsOf (compProg exP)).Nodup := (compile_labels_unique exP).1
+example : (labelsOf (compProg exP)).Nodup := (compile_labels_unique exP (fun d hd => allowed_wfS _ _ (exP_allowed d hd))).1
 end example_prog
 
 /-- (3) the assembler (writeJumps + removeNOPs): under the decidable layout condition `layoutOK c` the byte machine
@@ -210,10 +220,30 @@ theorem assemble_simulates_partial (c : Code) (hl : layoutOK c = true) (n : Nat)
     ∃ m, m ≤ n ∧ Byte.run (assemble c) m (mapS c s) = mapO c (Asm.run c n s) :=
   asm_run_sim c hl n s
 
+/-- (3') the layout condition is a theorem, not a per-program evaluation: for every assembly program that is
+    `encodable` — each operand representable in the byte encoding (integers within 256 bits, slot / argument
+    indices and INITSLOT counts below 256: `itemEnc`), every jump or call target marked (`targetsMarked`) and the long
+    layout shorter than 2^31 bytes — the one-pass writeJumps + removeNOPs of codegen.go:2882-3075 as modelled by
+    `assemble` puts every item at an offset where the byte machine decodes it back, with the relative offset of its
+    target's mark.  The arithmetic core (`fpos_closer`): deleting bytes moves items closer together without
+    reordering them, so a jump whose long-layout offset fits a signed byte still fits, and the target of a removed
+    `JMPL +5` lands on the jump's own offset. -/
+theorem layoutOK_of_encodable (c : Code) (h : encodable c = true) : layoutOK c = true :=
+  CompileProofs.layoutOK_of_encodable c h
+
+/-- … so the assembler simulation needs no layout hypothesis beyond `encodable`. -/
+theorem assemble_simulates (c : Code) (h : encodable c = true) (n : Nat) (s : State) :
+    ∃ m, m ≤ n ∧ Byte.run (assemble c) m (mapS c s) = mapO c (Asm.run c n s) :=
+  asm_run_sim c (layoutOK_of_encodable c h) n s
+
+/-! non-vacuity: the compiled example program is encodable (a linear scan, no assembler or decoder involved) -/
+example : encodable (compProg exP) = true := by decide
+example : layoutOK (compProg exP) = true := layoutOK_of_encodable _ (by decide)
+
 /-- (2)+(3) composed, down to the script bytes: the offset the assembler assigns to the mark of function `f` is a
     valid entry point of `compile P`, and the byte machine started there with the arguments on the stack halts with
     the value the Go semantics returns. -/
-theorem compile_bytes_correct_partial (P : Prog) (hall : ∀ d ∈ P, Allowed false d.body)
+theorem compile_bytes_correct_partial (P : Prog) (hall : ∀ d ∈ P, Allowed [] d.body)
     (hl : layoutOK (compProg P) = true)
     (f : String) (vs rest : List Val) (v : Val) (fuel : Nat)
     (hrun : callF fuel P f vs = .ok v) (hdep : fuel < 1024) :
@@ -225,7 +255,7 @@ theorem compile_bytes_correct_partial (P : Prog) (hall : ∀ d ∈ P, Allowed fa
 
 /-- … and so is the offset the debug info / manifest lists for the method (`debugOffset`, which is `labelOffset`
     unless the method is the single-instruction case that debug.go drops). -/
-theorem manifest_offset_correct_partial (P : Prog) (hall : ∀ d ∈ P, Allowed false d.body)
+theorem manifest_offset_correct_partial (P : Prog) (hall : ∀ d ∈ P, Allowed [] d.body)
     (hl : layoutOK (compProg P) = true)
     (f : String) (vs rest : List Val) (v : Val) (fuel off : Nat)
     (hoff : debugOffset (compProg P) P.length (fnLabel P f) = some off)
@@ -250,7 +280,7 @@ example : ∃ m, Byte.run (compile exP) m { pc := 17, stack := [.int 10], locals
 /-- (5) panic → FAULT, expressions: an expression of a function of `P` whose Go evaluation panics — an integer
     division or remainder by zero in the expression, or a division by zero / an explicit `panic(v)` in a function
     it calls (the run-time panics of the core) — FAULTs the machine, in value context and in jump context alike. -/
-theorem compile_expr_fault_partial (P : Prog) (hall : ∀ d ∈ P, Allowed false d.body) (cx : Ctx)
+theorem compile_expr_fault_partial (P : Prog) (hall : ∀ d ∈ P, Allowed [] d.body) (cx : Ctx)
     (htab : cx.funcs = funcTable P) (sc : Scopes) (env : Env) (fuel : Nat)
     (e : Expr) (m : Mode) (nl : Nat) (s : State)
     (hev : evalE fuel P env e = .panic)
@@ -258,31 +288,32 @@ theorem compile_expr_fault_partial (P : Prog) (hall : ∀ d ∈ P, Allowed false
     (hrel : VarsRel cx sc env s.locals s.args) (hdep : s.frames.length + fuel < 1024)
     (hlbl : ∀ c t, m = .jump c t → ∃ tp, findLabel (compProg P) t = some tp) :
     ∃ n, Asm.run (compProg P) n s = .fault :=
-  (allFault (progCode_compProg P) hall fuel).expr cx sc env htab e m nl s hev hp hrel hdep hlbl
+  (allFault (progCode_of_allowed P hall) hall fuel).expr cx sc env htab e m nl s hev hp hrel hdep hlbl
 
 /-- (5) panic → FAULT, statements: `panic(e)` (the argument is evaluated, THROW without a handler), `x /= e` and
     `x %= e` by zero, a panic in any expression, loop clause or body at any iteration, or in a callee. -/
-theorem compile_stmt_fault_partial (P : Prog) (hall : ∀ d ∈ P, Allowed false d.body) (cx : Ctx)
+theorem compile_stmt_fault_partial (P : Prog) (hall : ∀ d ∈ P, Allowed [] d.body) (cx : Ctx)
     (htab : cx.funcs = funcTable P) (fuel : Nat)
-    (s : Stmt) (lp : LoopCtx) (il : Bool) (st : St) (env : Env) (σ : State)
-    (hal : Allowed il s) (hil : il = true → ∃ b c, lp = some (b, c))
+    (s : Stmt) (lp : LoopCtx) (ls : Sigs) (st : St) (env : Env) (σ : State)
+    (hal : Allowed ls s) (hinv : Inv lp ls st σ)
+    (hd : Deep lp st.scopes.length ∨ (∃ b, s = .block b) ∧ Deepish lp st.scopes.length)
     (hex : exec fuel P env s = .panic)
     (hp : Placed (compProg P) σ.pc (compS cx lp s st).1)
     (hrel : VarsRel cx st.scopes env σ.locals σ.args) (hwf : Wf st)
     (hcnt : (compS cx lp s st).2.cnt ≤ σ.locals.length) (hdep : σ.frames.length + fuel < 1024) :
     ∃ n, Asm.run (compProg P) n σ = .fault :=
-  (allFault (progCode_compProg P) hall fuel).stmt cx htab s lp il st env σ hal hil hex hp hrel hwf hcnt hdep
+  (allFault (progCode_of_allowed P hall) hall fuel).stmt cx htab s lp ls st env σ hal hinv hd hex hp hrel hwf hcnt hdep
 
 /-- (5) program level: invoking a function of the compiled program whose Go evaluation panics FAULTs. -/
-theorem compile_prog_fault_partial (P : Prog) (hall : ∀ d ∈ P, Allowed false d.body)
+theorem compile_prog_fault_partial (P : Prog) (hall : ∀ d ∈ P, Allowed [] d.body)
     (f : String) (vs rest : List Val) (fuel : Nat)
     (hrun : callF fuel P f vs = .panic) (hdep : fuel < 1024) :
     ∃ pc0 n, findLabel (compProg P) (fnLabel P f) = some pc0 ∧
       Asm.run (compProg P) n { pc := pc0, stack := vs ++ rest, locals := [], args := [], frames := [] } = .fault :=
-  entry_fault (progCode_compProg P) hall hrun hdep
+  entry_fault (progCode_of_allowed P hall) hall hrun hdep
 
 /-- (5)+(3) down to the script bytes: the byte machine started at the method's offset FAULTs. -/
-theorem compile_bytes_fault_partial (P : Prog) (hall : ∀ d ∈ P, Allowed false d.body)
+theorem compile_bytes_fault_partial (P : Prog) (hall : ∀ d ∈ P, Allowed [] d.body)
     (hl : layoutOK (compProg P) = true)
     (f : String) (vs rest : List Val) (fuel : Nat)
     (hrun : callF fuel P f vs = .panic) (hdep : fuel < 1024) :
@@ -307,7 +338,7 @@ def exF : FuncDecl :=
       (.seq (.ret (some (.var "s"))) .skip)) }
 def exQ : Prog := [exQuot, exF]
 
-theorem exQ_allowed : ∀ d ∈ exQ, Allowed false d.body := by
+theorem exQ_allowed : ∀ d ∈ exQ, Allowed [] d.body := by
   intro d hd
   simp only [exQ, List.mem_cons, List.mem_nil_iff, or_false] at hd
   rcases hd with rfl | rfl <;> simp [exQuot, exF, Allowed, NoDecl, Strict]
@@ -334,7 +365,7 @@ def exG : FuncDecl :=
       (.seq (.ret (some (.var "s"))) .skip)) }
 def exR : Prog := [exLim, exG]
 
-theorem exR_allowed : ∀ d ∈ exR, Allowed false d.body := by
+theorem exR_allowed : ∀ d ∈ exR, Allowed [] d.body := by
   intro d hd
   simp only [exR, List.mem_cons, List.mem_nil_iff, or_false] at hd
   rcases hd with rfl | rfl <;> simp [exLim, exG, Allowed, NoDecl, Strict]
@@ -349,6 +380,192 @@ example : ∃ off m, labelOffset (compProg exR) (fnLabel exR "g") = some off ∧
     Byte.run (compile exR) m { pc := off, stack := [.int 3], locals := [], args := [], frames := [] } = .halt [.int 3] := by
   simpa using compile_bytes_correct_partial exR exR_allowed exR_layout "g" [.int 3] [] (.int 3) 40 (by rfl) (by decide)
 end example_fault
+
+/-! ## The byte-level theorems without a layout hypothesis
+
+`layoutOK (compProg P)` is now a theorem for every program of allowed functions within the size limits of the
+encoding: `SmallFn d` (at most 255 parameters, `declBound d.body` ≤ 255 local slots — what writeJumps itself
+enforces, codegen.go:2925-2927 — and integer literals below 2^255, which every Go `int` literal is) and a long layout
+below 2^31 bytes (the int32 jump operands, codegen.go:2979-2982).  Nothing is evaluated per program any more. -/
+
+/-- the instruction encoding is self-inverse: an instruction whose operands are representable (`encOK`: integers
+    within 256 bits, long jump operands int32, short ones int8, slot indices and INITSLOT counts one byte), followed by
+    any bytes, decodes to itself and to its own length (all 49 instruction forms of the model; PUSHINT by the general
+    two's-complement little-endian round trip `leInt_leBytes`). -/
+theorem encoding_round_trip (long : Bool) (op : Op Int) (rest : Bytes) (h : encOK long op = true) :
+    Byte.decode (Byte.encode long op ++ rest) = some (op, (Byte.encode long op).length) :=
+  decode_encode long op rest h
+
+example : Byte.decode (Byte.encode true (.jmpCmp .ge (-70000)) ++ [0x40]) = some (.jmpCmp .ge (-70000), 5) :=
+  encoding_round_trip true _ _ (by decide)
+
+/-- every jump and call target of the compiler's output is marked, for every program whose `fallthrough`s have a
+    next clause (`FtOK`, implied by `Allowed`): targets are the statement's own marks, function labels, label 0, or
+    the end / post marks of enclosing `for` / `switch` statements — all of which exist in `compProg P`. -/
+theorem targets_marked (P : Prog) (hft : ∀ d ∈ P, FtOK d.body) : targetsMarked (compProg P) = true :=
+  targetsMarked_compProg P hft
+
+/-- every operand of the compiler's output is representable, from source-level size conditions. -/
+theorem operands_encodable (P : Prog) (hall : ∀ d ∈ P, Allowed [] d.body) (hs : ∀ d ∈ P, SmallFn d)
+    (hlen : longLen (compProg P) < 2 ^ 31) : encodable (compProg P) = true :=
+  encodable_compProg P hall hs hlen
+
+/-- the layout condition holds for the compiler's output (Proofs/CompileOperands.lean: every operand representable;
+    CompileTargets.lean: every jump / call target marked; CompileLayout.lean: the one-pass shortening is consistent). -/
+theorem layoutOK_compProg (P : Prog) (hall : ∀ d ∈ P, Allowed [] d.body) (hs : ∀ d ∈ P, SmallFn d)
+    (hlen : longLen (compProg P) < 2 ^ 31) : layoutOK (compProg P) = true :=
+  layoutOK_of_encodable _ (encodable_compProg P hall hs hlen)
+
+/-- compile_correct down to the script bytes, success direction: the byte machine started at the offset the
+    assembler gives the function's mark halts with the value the Go semantics returns. -/
+theorem compile_bytes_correct (P : Prog) (hall : ∀ d ∈ P, Allowed [] d.body) (hs : ∀ d ∈ P, SmallFn d)
+    (hlen : longLen (compProg P) < 2 ^ 31)
+    (f : String) (vs rest : List Val) (v : Val) (fuel : Nat)
+    (hrun : callF fuel P f vs = .ok v) (hdep : fuel < 1024) :
+    ∃ off m, labelOffset (compProg P) (fnLabel P f) = some off ∧
+      Byte.run (compile P) m { pc := off, stack := vs ++ rest, locals := [], args := [], frames := [] } = .halt (v :: rest) :=
+  compile_bytes_correct_partial P hall (layoutOK_compProg P hall hs hlen) f vs rest v fuel hrun hdep
+
+/-- … at the offset the debug info / manifest lists for the method. -/
+theorem manifest_offset_correct (P : Prog) (hall : ∀ d ∈ P, Allowed [] d.body) (hs : ∀ d ∈ P, SmallFn d)
+    (hlen : longLen (compProg P) < 2 ^ 31)
+    (f : String) (vs rest : List Val) (v : Val) (fuel off : Nat)
+    (hoff : debugOffset (compProg P) P.length (fnLabel P f) = some off)
+    (hrun : callF fuel P f vs = .ok v) (hdep : fuel < 1024) :
+    ∃ m, Byte.run (compile P) m { pc := off, stack := vs ++ rest, locals := [], args := [], frames := [] } = .halt (v :: rest) :=
+  manifest_offset_correct_partial P hall (layoutOK_compProg P hall hs hlen) f vs rest v fuel off hoff hrun hdep
+
+/-- … and the failure direction: where the Go evaluation panics the script FAULTs. -/
+theorem compile_bytes_fault (P : Prog) (hall : ∀ d ∈ P, Allowed [] d.body) (hs : ∀ d ∈ P, SmallFn d)
+    (hlen : longLen (compProg P) < 2 ^ 31)
+    (f : String) (vs rest : List Val) (fuel : Nat)
+    (hrun : callF fuel P f vs = .panic) (hdep : fuel < 1024) :
+    ∃ off m, labelOffset (compProg P) (fnLabel P f) = some off ∧
+      Byte.run (compile P) m { pc := off, stack := vs ++ rest, locals := [], args := [], frames := [] } = .fault :=
+  compile_bytes_fault_partial P hall (layoutOK_compProg P hall hs hlen) f vs rest fuel hrun hdep
+
+/-! ## Stage 5: `switch` (with / without tag, `default` last, `fallthrough`), Go labels, `break L` / `continue L`
+
+The statement theorems above (`compile_stmt_correct_partial'`, `compile_prog_correct_partial`, the `*_fault_*` and the
+`*_bytes_*` ones) now range over these constructs as well: `Allowed ls s` admits `switch` statements whose clause
+chain ends with `default` or nothing (`AllowedCl`; a `default` elsewhere is the known finding switch-early-default),
+`fallthrough` except in the last clause, `break`/`continue` inside `switch` inside `for`, labels on `for`/`switch` and
+`break L`/`continue L` to any enclosing statement so labeled (`continue` only to a `for`), at most three nested
+`switch` statements (a fourth tag would be dropped with PACK, which MiniVm does not execute).  What is proved about
+them (Proofs/CompileSwitch.lean, CompileLoop.lean): the tag stays on the evaluation stack from the first test to the
+DROP behind the end mark; a `break` that concerns the switch lands on the end mark with the tag still there; whatever
+goes further out (`break L`, `continue`, `continue L`, `return`) first drops the tags of all the `switch` statements
+it leaves (`SameD`, `totalSz`), exactly as BranchStmt / ReturnStmt of codegen.go do with `labelList`; the labeled
+branch's dead `LDLOC` of a phantom local named after the label (Visit falls through to the label identifier,
+codegen.go:1425-1450) is modelled (`St.phantom`) and shown harmless.
+
+non-vacuity:
+      func g(n int) int {
+        s := 0
+      L:
+        for i := 0; i < n; i++ {
+          switch i % 4 {
+          case 0, 1: s += 1; fallthrough
+          case 2:    if i == 5 { continue L }; if i > 7 { break L }; s += 10
+          default:   if s > 1000 { break }; continue
+          }
+          s += 100
+        }
+        return s
+      }                                                   g(10) = 555 -/
+section example_switch
+def exSwCl : Stmt :=
+  .caseS (.lit 0) (some (.lit 1)) (.seq (.opAssign "s" .add (.lit 1)) .skip) true
+    (.caseS (.lit 2) none
+      (.seq (.ite (.bin .eq (.var "i") (.lit 5)) (.seq (.contL "L") .skip) .none .skip)
+      (.seq (.ite (.bin .gt (.var "i") (.lit 7)) (.seq (.brkL "L") .skip) .none .skip)
+      (.seq (.opAssign "s" .add (.lit 10)) .skip))) false
+      (.defaultS (.seq (.ite (.bin .gt (.var "s") (.lit 1000)) (.seq .brk .skip) .none .skip) (.seq .cont .skip))))
+
+def exSw : FuncDecl :=
+  { name := "g", params := ["n"], hasResult := true,
+    body := .seq (.define "s" (.lit 0))
+      (.seq (.labeled "L" (.loop (.define "i" (.lit 0)) (some (.bin .lt (.var "i") (.var "n"))) (.inc "i")
+              (.seq (.switchS (some (.bin .mod (.var "i") (.lit 4))) true exSwCl)
+              (.seq (.opAssign "s" .add (.lit 100)) .skip))))
+      (.seq (.ret (some (.var "s"))) .skip)) }
+
+theorem exSw_allowed : ∀ d ∈ [exSw], Allowed [] d.body := by
+  intro d hd
+  simp only [List.mem_cons, List.mem_nil_iff, or_false] at hd
+  subst hd
+  simp [exSw, exSwCl, Allowed, AllowedCl, NoDecl, Strict, swCount, contTarget, IsClause]
+example : callF 200 [exSw] "g" [.int 10] = .ok (.int 555) := by rfl
+theorem exSw_layout : layoutOK (compProg [exSw]) = true := layoutOK_of_encodable _ (by decide)
+example : ∃ off m, labelOffset (compProg [exSw]) (fnLabel [exSw] "g") = some off ∧
+    Byte.run (compile [exSw]) m { pc := off, stack := [.int 10], locals := [], args := [], frames := [] } = .halt [.int 555] := by
+  simpa using compile_bytes_correct_partial [exSw] exSw_allowed exSw_layout "g" [.int 10] [] (.int 555) 200 (by rfl) (by decide)
+theorem exSw_small : ∀ d ∈ [exSw], SmallFn d := by
+  intro d hd
+  simp only [List.mem_cons, List.mem_nil_iff, or_false] at hd
+  subst hd
+  refine ⟨by decide, by decide, ?_⟩
+  simp [exSw, exSwCl, LitsS, LitsE, LitsO]
+example : ∃ off m, labelOffset (compProg [exSw]) (fnLabel [exSw] "g") = some off ∧
+    Byte.run (compile [exSw]) m { pc := off, stack := [.int 10], locals := [], args := [], frames := [] } = .halt [.int 555] := by
+  simpa using compile_bytes_correct [exSw] exSw_allowed exSw_small (by decide) "g" [.int 10] [] (.int 555) 200 (by rfl) (by decide)
+end example_switch
+
+/-- (1a) `var x T = e`: when `x` does not occur in `e`, the statement compiles to exactly the code and compile-time
+    state of `x := e` and has the same Go semantics — the early allocation of the local (codegen.go:738-764) is
+    invisible.  This is the precise carve-out of the known finding var-decl-shadow-self: `Allowed` (the hypothesis of
+    all statement / program theorems) admits `var x T = e` iff `mentions x e = false`, shadowing of an outer `x`
+    included; `varDecl_shadow_witness` below shows that the condition cannot be dropped. -/
+theorem varDecl_as_define (cx : Ctx) (lp : LoopCtx) (x : String) (b : Bool) (e : Expr) (st : St) (fuel : Nat) (P : Prog) (env : Env)
+    (h : mentions x e = false) :
+    compS cx lp (.varDecl x b (some e)) st = compS cx lp (.define x e) st ∧
+    exec fuel P env (.varDecl x b (some e)) = exec fuel P env (.define x e) ∧
+    (∀ il, Allowed il (.varDecl x b (some e))) :=
+  ⟨compS_varDecl_define cx lp x b e st h, exec_varDecl_define fuel P env x b e, fun _ => h⟩
+
+/-! non-vacuity: a `var` declaration that shadows the argument `x` without reading it in its own initialiser
+      func f(x int) int { r := 0; { var y int = x + 1; var x int = y * 2; r = x }; return r + x }     f(3) = 11 -/
+def shadowOK : FuncDecl :=
+  { name := "f", params := ["x"], hasResult := true,
+    body := .seq (.define "r" (.lit 0))
+      (.seq (.block (.seq (.varDecl "y" false (some (.bin .add (.var "x") (.lit 1))))
+                    (.seq (.varDecl "x" false (some (.bin .mul (.var "y") (.lit 2))))
+                    (.seq (.assign "r" (.var "x")) .skip))))
+      (.seq (.ret (some (.bin .add (.var "r") (.var "x")))) .skip)) }
+
+theorem shadowOK_allowed : ∀ d ∈ [shadowOK], Allowed [] d.body := by
+  intro d hd
+  simp only [List.mem_cons, List.mem_nil_iff, or_false] at hd
+  subst hd
+  simp [shadowOK, Allowed, mentions]
+
+example : callF 20 [shadowOK] "f" [.int 3] = .ok (.int 11) := by rfl
+theorem shadowOK_layout : layoutOK (compProg [shadowOK]) = true := by decide
+example : ∃ off m, labelOffset (compProg [shadowOK]) (fnLabel [shadowOK] "f") = some off ∧
+    Byte.run (compile [shadowOK]) m { pc := off, stack := [.int 3], locals := [], args := [], frames := [] } = .halt [.int 11] := by
+  simpa using compile_bytes_correct_partial [shadowOK] shadowOK_allowed shadowOK_layout "f" [.int 3] [] (.int 11) 20 (by rfl) (by decide)
+
+/-! ## The integer-semantics gap (64-bit wrapping Go ints vs 256-bit VM integers) -/
+
+/-- the side condition of every theorem above, spelled out: `evalE … = .ok v` (no intermediate result of the
+    evaluation left the int64 range) implies that Go's real, wrapping arithmetic (`evalW`, `wrap64`) computes the same
+    `v` — on call-free expressions, where the wrapping semantics is defined structurally. -/
+theorem no_overflow_is_go (P : Prog) (env : Env) (fuel : Nat) (e : Expr) (v : Val) (hnc : NoCall e)
+    (h : evalE fuel P env e = .ok v) : evalW env e = some v :=
+  evalE_ok_evalW P env fuel e v hnc h
+
+/-- … and it is necessary: `func f(a int) int { return (a + a) / 2 }` at a = 2^62.  Go wraps a + a to -2^63 and
+    returns -2^62; the checked semantics reports `.overflow` (no claim); the compiled script, run by the byte machine
+    with 256-bit integers, halts with +2^62. -/
+theorem overflow_side_condition_necessary :
+    callF 20 [ovD] "f" [.int (2 ^ 62)] = .overflow ∧
+    evalW ovEnv ovE = some (.int (-(2 ^ 62))) ∧
+    Byte.run (compile [ovD]) 20 { pc := 0, stack := [.int (2 ^ 62)], locals := [], args := [], frames := [] } = .halt [.int (2 ^ 62)] :=
+  overflow_witness
+
+example : evalE 10 [] ovEnv (.bin .add (.var "a") (.lit 5)) = .ok (.int (2 ^ 62 + 5)) := by rfl
+example : evalW ovEnv (.bin .add (.var "a") (.lit 5)) = some (.int (2 ^ 62 + 5)) :=
+  no_overflow_is_go [] ovEnv 10 _ _ (by simp [NoCall]) (by rfl)
 
 /-- The excluded case is a real difference between the compiler (as modelled, codegen.go:738-764) and Go:
     `func f(x int) int { r := 0; { var x int = x + 1; r = x }; return r + x }` returns 2x+1 in Go, while the
